@@ -16,7 +16,7 @@ Python → Lean
 * `BaseConnector._wait_for_available_connection`        → `park` (queue the future; `front` after a
   lost race), the `.waiting` case of `resume` (the `finally`, the capacity re-check, the re-queue)
 * `connect`: placeholder reservation / swap / `except`  → `reserve`, the `.creating` case of `resume`
-* `BaseConnector._release_waiter` (+ `random.shuffle`)   → `order`, `wakeKey`, `releaseWaiterKeys`, `releaseWaiter`
+* `BaseConnector._release_waiter` (+ `random.shuffle`)   → `order`, `wakeScan`, `wake`, `releaseWaiterKeys`, `releaseWaiter`
 * `BaseConnector._release_acquired`                      → `releaseAcquired`
 * `BaseConnector._release` / `Connection.release|close`  → the `.release` case of `step`
 * `BaseConnector._close_immediately`                     → `closeAll`
